@@ -29,7 +29,7 @@ ASSUMPTIONS = ['fetch margins (fragment_size) are at least the longest simulated
                'worker schedules are sampled (distinct completion orders observed are counted)']
 MIN_NONTRIVIAL = {'quick': 40, 'thorough': 2500}
 REQUIRED_MONITORS = ['run:serial', 'run:restricted_to_one_contig', 'lib:contig_with_placed_unmapped_pairs_only', 'run:contig_per_process', 'run:tiling_pool', 'run:tiling_nopool', 'records:compared', 'jobs:observed',
-                     'ownership:records_checked', 'edge:sites_on_bin_edges', 'lib:fragments_up_to_900bp', 'lib:hard_clipped_fragments', 'run:tiling_with_job_bed_file']
+                     'ownership:records_checked', 'edge:sites_on_bin_edges', 'lib:fragments_up_to_900bp', 'lib:hard_clipped_fragments', 'run:tiling_with_job_bed_file', 'run:one_contig_skipped', 'lib:empty_contig_between_populated_ones']
 SHARD_TIMEOUT = {'quick': 900, 'thorough': 7200}
 IGNORE_TAGS = {'mi', 'ix'}
 
@@ -63,13 +63,17 @@ def run_case(case):
     if r.random() < 0.4:
         lonely = ('scaffold_7', r.choice([1500, 6000]))
         contigs = contigs + [lonely]
+    if case['i'] % 3 == 1 and len(contigs) > 1:
+        # a contig without any read between contigs that carry reads (an empty scaffold / decoy in the middle of the header)
+        contigs.insert(r.randint(1, len(contigs) - 1), ('chrEmpty', r.choice([3000, 9000])))
+        acc.count('lib:empty_contig_between_populated_ones')
     # sites at bin edges of the tiling (-1/0/+1) and elsewhere
     gen = F.Genome(r, contigs)
     recs, truths = [], {}
     rid = 1
     edge_sites = 0
     for name, ln in contigs:
-        if (name, ln) == lonely:
+        if (name, ln) == lonely or name == 'chrEmpty':
             continue
         for _ in range(r.randint(2, 7)):
             if r.random() < 0.6:
@@ -126,13 +130,19 @@ def run_case(case):
             groups[t['key']].append(t)
     edge_multi = any(len(g) >= 2 and g[0]['site'] % seg in (0, 1, seg - 1) for g in groups.values())
     with Scratch('c08') as dd:
-        bam = write_bam(os.path.join(dd, 'in.bam'), gen.refs, recs)
+        ties = r if case['i'] % 2 else None
+        acc.count('input:ties_in_random_order', 1 if ties else 0)
+        bam = write_bam(os.path.join(dd, 'in.bam'), gen.refs, recs, tie_rng=ties)
         # ---------------------------------------------------------------- serial
         out_s = os.path.join(dd, 'serial.bam')
         # a third of the cases restrict the run to one contig (-contig): every way of running must restrict itself to the same records
         restrict = ['-contig', r.choice(contigs)[0]] if r.random() < 0.35 else []
-        cfg0['restricted_to'] = restrict[1] if restrict else None
-        acc.count('run:restricted_to_one_contig', 1 if restrict else 0)
+        if not restrict and case['i'] % 4 == 1:
+            # ... or leave one contig out (-skip_contig) - preferably one that carries reads and is followed by more contigs with reads
+            restrict = ['-skip_contig', r.choice(contigs[:-1] or contigs)[0]]
+            acc.count('run:one_contig_skipped')
+        cfg0['restricted_to'] = ' '.join(restrict) if restrict else None
+        acc.count('run:restricted_to_one_contig', 1 if restrict and restrict[0] == '-contig' else 0)
         # how often the molecule buffer is checked for ejection is a tuning constant; every run draws its own value (the serial run too)
         ej = lambda: r.choice([None, 0, 1, 4, 20])
         exc, txt = T.run_cli([bam, '-o', out_s, '-method', method, '-umi_hamming_distance', '1'] + restrict, eject_every=ej())
